@@ -71,7 +71,7 @@ func VerifH_C13_oneshot_roundtrip() {
 	c := pickConn(st, w)
 	maxLen := 2*(w+9) + 3
 	k1, k2 := verif.Choose(2)+1, verif.Choose(2)+1
-	d1, d2 := verif.Bytes(maxLen), verif.Bytes(6)
+	d1, d2 := verif.BytesN(verif.Int(0, maxLen)), verif.BytesN(verif.Int(0, 2))
 	verif.Assert(c.WriteMessage(k1, d1) == nil, "write 1")
 	verif.Assert(c.WriteMessage(k2, d2) == nil, "write 2")
 	rc, _ := newReaderConn(st.wire(), 2)
@@ -80,19 +80,24 @@ func VerifH_C13_oneshot_roundtrip() {
 	expectEnd(rc, "stream")
 }
 
-// Streaming writer fed with up to three writes of arbitrary sizes.
-func VerifH_C13_stream_roundtrip() {
+// Streaming writer fed with two (quick) or three (thorough) writes of arbitrary sizes.
+func VerifH_C13_stream_roundtrip()  { c13Stream(false) }
+func VerifHT_C13_stream3_roundtrip() { c13Stream(true) }
+
+func c13Stream(three bool) {
 	w := c13W()
 	st := &fakeStream{failAt: -1}
 	c := pickConn(st, w)
 	maxLen := 2*(w+9) + 3
 	kind := verif.Choose(2) + 1
-	data := verif.Bytes(maxLen)
+	data := verif.BytesN(verif.Int(0, maxLen))
 	wr, err := c.NextWriter(kind)
 	verif.Assert(err == nil, "NextWriter")
-	a := verif.Int(0, maxLen)
-	b := verif.Int(0, maxLen)
-	verif.Assume(a <= b && b <= len(data))
+	a := verif.Concretize(verif.Int(0, len(data)))
+	b := len(data)
+	if three {
+		b = verif.Concretize(verif.Int(a, len(data)))
+	}
 	useString := verif.Bool()
 	n1, e1 := wr.Write(data[:a])
 	var n2 int
@@ -118,7 +123,7 @@ func VerifH_C13_readfrom_roundtrip() {
 	c := pickConn(st, w)
 	maxLen := 2*(w+9) + 3
 	kind := verif.Choose(2) + 1
-	data := verif.Bytes(maxLen)
+	data := verif.BytesN(verif.Int(0, maxLen))
 	wr, err := c.NextWriter(kind)
 	verif.Assert(err == nil, "NextWriter")
 	src := &fakeReader{data: data, fail: -1}
@@ -137,7 +142,7 @@ func VerifH_C13_prepared_roundtrip() {
 	server := verif.Bool()
 	c := NewConn(nil, st, server, 0, 4, nil, nil, nil)
 	kind := verif.Choose(2) + 1
-	data := verif.Bytes(40)
+	data := verif.BytesN(verif.Int(0, 20))
 	pm, err := NewPreparedMessage(kind, data)
 	verif.Assert(err == nil, "NewPreparedMessage")
 	if err != nil {
